@@ -451,6 +451,17 @@ def order_agrees(residual, items, scal, named):
     return True
 
 
+def range_prop(ir):
+    k = ir[0]
+    if k == "zero":
+        return "(d = 0)"
+    if k == "cmp":
+        return "(d %s q)" % {">=": "≥", ">": ">", "<": "<", "<=": "≤", "==": "=", "!=": "≠"}[ir[1]]
+    if k == "not":
+        return "(¬ %s)" % range_prop(ir[1])
+    return "(%s %s %s)" % (range_prop(ir[1]), "∨" if k == "or" else "∧", range_prop(ir[2]))
+
+
 def generate(fns):
     """-> (Lean text of Bee2V.Gen.C09Checks, theorems, report dict)"""
     codes = err_codes()
@@ -584,6 +595,17 @@ def generate(fns):
                 rep["order_differs"].append(f["name"])
         rep["contracts"].append(f["name"])
         out.append("")
+    # private-key range checks found in the code
+    out.append("-- private-key range checks of the code (`if (…) return ERR_BAD_PRIVKEY`): d = the key, q = the bound it is compared with")
+    for f in fns:
+        for i, (ir, key) in enumerate(f.get("ranges", [])):
+            if ir[0] == "other":
+                rep.setdefault("range_checks_unrecognised", []).append("%s: %s" % (f["name"], key))
+                continue
+            out.append("/-- `%s` (%s), key variable `%s` -/" % (f["name"], f["src"], key))
+            out.append("def range_%s_%d (d q : Nat) : Prop := %s" % (f["lname"], i, range_prop(ir)))
+            rep.setdefault("range_checks", []).append((f["name"], f["lname"], i))
+    out.append("")
     # evaluator for the driver
     out.append("/-- evaluate a cascade by name on scalar arguments (benign valuation; named predicates true) -/")
     out.append("def evalCheck (name : String) (a : Array Nat) : Option (Option Nat) :=")
